@@ -160,13 +160,24 @@ def weave(item, ext):
             i = text.find(b)
             j = text.find(e)
             if i < 0 or j < 0:
-                raise Undecided("lost anchor: %s: no closure %d" % (what, arg))
+                # the closure the contract was written for no longer exists: the contract is moot, the function's own
+                # contract still has to hold
+                REANCHORED.append("%s: closure %d no longer exists, its woven contract was dropped" % (what, arg))
+                continue
             text = text[:i] + body + text[j + len(e):]
         elif kind == 'type':
             mk = '/*@TY:%s@*/' % arg
             if mk not in text:
                 raise Undecided("lost anchor: %s: no collected temporary %s" % (what, arg))
             text = text.replace(mk, ' ' + body.strip() + ' ', 1)
+        elif kind == 'after':
+            prefix, nth = arg
+            pos = [m.end() for m in re.finditer(r'/\*@E:(.*?)@\*/', text) if m.group(1).startswith(prefix)]
+            if (nth is None and len(pos) != 1) or (nth is not None and nth >= len(pos)):
+                REANCHORED.append("%s: hint anchored after %r has no place any more and was dropped" % (what, prefix))
+                continue
+            p = pos[0] if nth is None else pos[nth]
+            text = text[:p] + '\n' + body + '\n' + text[p:]
         elif kind == 'at':
             prefix, nth = arg
             try:
@@ -174,7 +185,8 @@ def weave(item, ext):
             except Undecided:
                 p = fallback_anchor(text, what, prefix, nth)
                 if p is None:
-                    raise
+                    REANCHORED.append("%s: hint anchored at %r has no place any more and was dropped" % (what, prefix))
+                    continue
                 REANCHORED.append("%s: hint anchored at %r re-attached to the next surviving statement" % (what, prefix))
             text = text[:p] + '\n' + body + '\n' + text[p:]
     return text
